@@ -31,6 +31,13 @@ def gen_headers(rnd, n, avoid_framing=True):
             val = 'a:b:c ' + ''.join(rnd.choice(VALCH) for _ in range(rnd.randint(0, 10))) + ':'
         else:
             val = ''.join(rnd.choice(VALCH) for _ in range(rnd.randint(1, 40)))
+        if rnd.random() < 0.06:
+            # names that merely start like (or end like) a framing header, with
+            # values a framing header could carry: they must not frame anything
+            name = rnd.choice(['Content-Length-Hint', 'Content-Lengthy', 'Content-Length2', 'X-Content-Length',
+                               'Transfer-Encoding-Offered', 'Transfer-Encodings', 'Transfer-Encoding2',
+                               'Content-Lengt', 'Transfer-Encodin'])
+            val = rnd.choice(['0', '5', '1', '999999', 'chunked', 'gzip, chunked', 'identity'])
         lead = rnd.choice(['', ' ', '  ', '\t', ' \t '])
         trail = rnd.choice(['', '', ' ', '\t', '  \t'])
         raw = (name + ':' + lead + val + trail).encode('latin-1')
